@@ -199,6 +199,13 @@ package generator
 //@ ensures len(in) == 0 ==> len(out) == 0
 //@ loop 1 invariant len(out) <= vs_done(1)
 
+//@ func opRefs.Less
+//@ props C07 C08
+//@ safety
+//@ pure
+//@ requires 0 <= i && i < len(o) && 0 <= j && j < len(o)
+//@ ensures result == (o[i].Key < o[j].Key || (o[i].Key == o[j].Key && (o[i].Method < o[j].Method || (o[i].Method == o[j].Method && o[i].Path < o[j].Path))))
+
 //@ func gatherOperations
 //@ props C08
 //@ requires specDoc != nil
@@ -223,7 +230,7 @@ package generator
 //@ ensures !strings.Contains(string(spec), "`") ==> result == string(spec)
 //@ loop 1 invariant buf != nil && vs_fresh(buf) && 0 <= vs_pos(1) && vs_pos(1) <= len(string(spec))
 //@ loop 1 invariant !strings.Contains(string(spec)[:vs_pos(1)], "`") ==> buf.String() == string(spec)[:vs_pos(1)]
-//@ loop 1 step buf.String() == old(buf.String())+vs_piece(string(spec), old(vs_pos(1)), vs_pos(1), b)
+//@ loop 1 step buf.String() == old(buf.String())+vs_piece(string(spec), old(vs_pos(1)), vs_pos(1), rune(b))
 
 // ---- C06: the generated server authenticates exactly the operations with an effective requirement ----
 
